@@ -194,3 +194,113 @@ Proof.
   - constructor; [split; [discriminate|exact (proj2 (proj2 Hw1))]|constructor; [split; [discriminate|exact (proj2 (proj2 Hw2))]|constructor]].
   - unfold ex_prog. repeat (first [ split | (vm_compute; reflexivity) | discriminate | constructor ]).
 Qed.
+
+(* ---- translation units that mix object declarations and function definitions ---- *)
+Section GU.
+Variable C : Type.
+Variable rp : bool.
+Definition embE (d: edecl) : value C :=
+  match d with
+  | EFun ty f items => embF C (ty, f, items)
+  | EObj ty x i => embS C (SDecl ty x i)
+  end.
+Definition embU (u: list edecl) : value C := VNode C_FileAST [VList (map embE u)] None.
+Definition etext (d: edecl) : str :=
+  match d with
+  | EFun ty f items => ftext rp (ty, f, items)
+  | EObj ty x i => vis rp (SDecl ty x i) 0%Z ++ s ";" ++ [10%N]
+  end.
+Definition utext (u: list edecl) : str := concat_str (map etext u).
+Definition ecost (d: edecl) : nat := match d with EFun ty f items => fcost (ty, f, items) | EObj _ _ i => 3 * osize i + 8 end.
+Definition egen_ok (d: edecl) : Prop :=
+  match d with EFun ty f items => fgen_ok (ty, f, items) | EObj ty x i => x <> [] /\ owf i end.
+
+Lemma visit_unit : forall u, Forall egen_ok u -> forall fuel lv, list_sum (map ecost u) + 2 <= fuel -> lv = 0%Z ->
+  visit C rp fuel (embU u) lv = GOk (utext u, 0%Z).
+Proof.
+  intros u Hu fuel lv Hfu ->. destruct fuel as [|fuel]; [lia|]. unfold embU.
+  change (visit C rp (S fuel) (VNode C_FileAST [VList (map embE u)] None) 0%Z) with
+    (gbind (mapM (fun e => gbind (visit C rp fuel e) (fun x =>
+                           if is_c C C_FuncDef e then gret x
+                           else if is_c C C_Pragma e then gret (x ++ [10%N])
+                           else gret (x ++ s ";" ++ [10%N]))) (map embE u)) (fun xs => gret (concat_str xs)) 0%Z).
+  assert (HM: forall q, Forall egen_ok q -> list_sum (map ecost q) + 1 <= fuel ->
+            mapM (fun e => gbind (visit C rp fuel e) (fun x =>
+                           if is_c C C_FuncDef e then gret x
+                           else if is_c C C_Pragma e then gret (x ++ [10%N])
+                           else gret (x ++ s ";" ++ [10%N]))) (map embE q) 0%Z = GOk (map etext q, 0%Z)).
+  { induction q as [|d q IH]; intros Hq Hc; [reflexivity|].
+    inversion Hq as [|x y Hd Hq']; subst x y. change (list_sum (map ecost (d :: q))) with (ecost d + list_sum (map ecost q)) in Hc.
+    cbn [map mapM]. unfold gbind at 1. unfold gbind at 1. destruct d as [ty f items|ty x i]; cbn [embE etext ecost egen_ok] in *.
+    - destruct Hd as [Hf Hw]. cbn [fcost] in Hc.
+      assert (HX: visit C rp fuel (embF C (ty, f, items)) 0%Z = GOk (ftext rp (ty, f, items), 0%Z)) by (apply visit_fdef; [exact Hf|exact Hw|lia]).
+      rewrite HX. change (is_c C C_FuncDef (embF C (ty, f, items))) with true. cbv iota. unfold gret at 1.
+      unfold gbind at 1. rewrite (IH Hq') by lia. reflexivity.
+    - destruct Hd as [Hx Hi].
+      rewrite (visit_declS C rp ty x i Hx Hi fuel 0%Z) by lia.
+      change (is_c C C_FuncDef (embS C (SDecl ty x i))) with false. change (is_c C C_Pragma (embS C (SDecl ty x i))) with false. cbv iota. unfold gret at 1.
+      unfold gbind at 1. rewrite (IH Hq') by lia. reflexivity. }
+  unfold gbind at 1. rewrite (HM u Hu) by lia. reflexivity.
+Qed.
+End GU.
+
+Definition etok_ok (rp: bool) (d: edecl) : Prop :=
+  match d with
+  | EFun ty f items => ftok_ok rp (ty, f, items)
+  | EObj ty x i => sexprs (eok rp) (SDecl ty x i)
+  end.
+
+Lemma etext_tokens : forall rp d, etok_ok rp d -> despace2 (etext rp d) = spell (etoks rp d).
+Proof.
+  intros rp [ty f items|ty x i] H; cbn [etok_ok etext etoks] in *.
+  - destruct H as (Hf & Hty & Hit). exact (ftext_tokens rp ty f items Hf Hty Hit).
+  - pose proof (vis_tokens rp (ssize (SDecl ty x i)) (SDecl ty x i) (le_n _) H 0%Z) as HV. unfold vt in HV. cbn [isexpr stoks] in HV.
+    rewrite <- HV. rewrite !despace2_app. change (despace2 [10%N]) with (@nil N). rewrite app_nil_r. reflexivity.
+Qed.
+
+Theorem utext_tokens : forall rp u, Forall (etok_ok rp) u -> despace2 (utext rp u) = spell (unit_toks rp u).
+Proof.
+  intros rp u. induction u as [|d u IH]; intros H; [reflexivity|]. inversion H as [|x y Hd H']; subst x y.
+  unfold utext, unit_toks in *. cbn [map concat_str concat]. rewrite despace2_app, spell_app, (etext_tokens rp d Hd), (IH H'). reflexivity.
+Qed.
+
+Lemma embE_unit : forall rp d, embE unit d = eemb rp d.
+Proof.
+  intros rp [ty f items|ty x i]; cbn [embE eemb].
+  - exact (embF_unit rp (ty, f, items)).
+  - exact (embS_unit 1 (SDecl ty x i) (le_n _)).
+Qed.
+Lemma embU_unit : forall rp u, embU unit u = unit_emb rp u.
+Proof. intros rp u. unfold embU, unit_emb. f_equal. f_equal. f_equal. apply map_ext. intros d. apply embE_unit. Qed.
+
+(* parse . generate = id, token level, for translation units of object declarations and function definitions, on the two models *)
+Theorem unit_roundtrip : forall (P: Type) rp (u: list edecl), Forall ewf u -> Forall egen_ok u -> Forall (etok_ok rp) u ->
+  (forall fuel, list_sum (map ecost u) + 2 <= fuel -> visit unit rp fuel (unit_emb rp u) 0%Z = GOk (utext rp u, 0%Z)) /\
+  despace2 (utext rp u) = spell (unit_toks rp u) /\
+  (forall items le eof file, RoundTrip.Spell P le (unit_toks rp u) -> StreamLib.UpR P [[]] items le -> length items = length le ->
+   exists f0 N s', (forall fu, f0 <= fu -> ParserMain.parse_tokens P fu (ParserMain.init_pstate P items eof file) = ParserBase.Ok (N, s')) /\
+     RoundTrip.strip N = unit_emb rp u).
+Proof.
+  intros P rp u Hw Hg Ht. split; [|split].
+  - intros fuel Hf. rewrite <- (embU_unit rp u). exact (visit_unit unit rp u Hg fuel 0%Z Hf eq_refl).
+  - exact (utext_tokens rp u Ht).
+  - intros items le eof file HS HU Hl. destruct (parse_of_generated_unit P rp u Hw items le eof file HS HU Hl) as [f0 [N [s' [H [HN _]]]]].
+    exists f0, N, s'. split; [exact H|exact HN].
+Qed.
+
+Example unit_roundtrip_example :
+  visit unit false 200 (unit_emb false ex_unit) 0%Z = GOk (s2l "int counter = 0;
+unsigned long limit;
+int next()
+{
+  counter = counter + 1;
+  return counter;
+}
+
+char flag = (counter, 1);
+void g()
+{
+}
+
+", 0%Z).
+Proof. vm_compute. reflexivity. Qed.
